@@ -151,6 +151,28 @@ def correspondence(ctx):
                 pass
             except Exception as e:  # noqa: BLE001
                 dis.append(f"constructor raises {type(e).__name__} (not TypeError) for value {badv!r}")
+    # from_<system>() classmethods of the six object classes: positional values stored verbatim in the named system
+    n_from = 0
+    for dim in (2, 3, 4):
+        for fl, cname in (("g", f"VectorObject{dim}D"), ("m", f"MomentumObject{dim}D")):
+            cls = getattr(vector, cname)
+            for sig in C.SIGS[dim]:
+                meth = "from_" + "".join(C.signames(sig))
+                vals = [1.25 + 0.5 * j for j in range(dim)]
+                n_from += 1
+                try:
+                    v = getattr(cls, meth)(*vals)
+                    ok = type(v) is cls and C.sig_of(v) == tuple(sig) and [float(x) for x in C.stored(v)] == vals
+                    why = f"returns {v!r}"
+                except Exception as e:  # noqa: BLE001
+                    ok, why = False, f"raises {type(e).__name__}: {str(e)[:60]}"
+                if not ok:
+                    dis.append(f"{cname}.{meth}{tuple(vals)} {why}")
+                    fails.append({"key": f"from-classmethod:{cname}.{meth}", "what": dis[-1], "code": (
+                        "import vector\nv = vector.%s.%s(*%r)\nimport sys; sys.path.insert(0, %r)\nfrom harness import common as C\n"
+                        "assert type(v) is vector.%s and C.sig_of(v) == %r and [float(x) for x in C.stored(v)] == %r, repr(v)\n"
+                        % (cname, meth, vals, C.VERIF, cname, tuple(sig), vals))})
+    kinds += n_from
     kinds_dist = {}
     for a in reals:
         kinds_dist[a.split()[0]] = kinds_dist.get(a.split()[0], 0) + 1
